@@ -11,7 +11,7 @@ type pathElem struct {
 	field string    // non-empty for fields
 	index ssa.Value // for indices (evaluated lazily)
 	user  *ssa.BasicBlock
-	idxT  *Term     // pre-evaluated index term (phase 2 / queries)
+	idxT  *Term // pre-evaluated index term (phase 2 / queries)
 }
 
 type storeRec struct {
